@@ -197,12 +197,6 @@ Fixpoint make_path (st : state) (cur : path) (rel : path) : state :=
 Definition set_data_gen (st : state) (s : nat) (rel : path) : state :=
   if has_node (st_tree st) [NS s] then prim_insert_ordered (make_path st [NS s] rel) s ([NS s] ++ rel) BEnd None else st.
 
-(* the nodes several patterns of one traversal call back on: each matching node once *)
-Definition add_path (acc : list path) (p : path) : list path :=
-  if existsb (path_eqb p) acc then acc else acc ++ [p].
-Definition expand_all (t : tree) (root : path) (pats : list pattern) : list path :=
-  fold_left add_path (flat_map (expand t root) pats) [].
-
 (* DoGetData with one absolute pattern: GetDataCallback on every matching node *)
 Definition getdata_node (st : state) (s : nat) (e : path * inode) : state :=
   let '(p, n) := e in
@@ -302,7 +296,7 @@ Inductive cmd :=
 | CInsertOrdered (ppats : list pattern) (items : list bspec)  (* PR_COMMAND_INSERTORDEREDDATA, keys of equal depth *)
 | CReorder (fields : list (pattern * bspec))                  (* PR_COMMAND_REORDERDATA: one traversal per field, in order;
                                                                  also MoveIndexEntries *)
-| CRemove (pat : pattern)                                     (* PR_COMMAND_REMOVEDATA, one key; also RemoveDataNodes *)
+| CRemove (pats : list pattern)                               (* PR_COMMAND_REMOVEDATA, keys of equal depth; also RemoveDataNodes *)
 | CSubscribe (pat : pattern)                                  (* SETPARAMETERS SUBSCRIBE:pat (+ GETDATA when quiet) *)
 | CUnsubscribe (pat : pattern)                                (* REMOVEPARAMETERS SUBSCRIBE:pat *)
 | CUnsubscribeAll                                             (* REMOVEPARAMETERS SUBSCRIBE:* (wildcard: every subscription) *)
@@ -325,13 +319,13 @@ Definition handle (cfg : config) (st : state) (s : nat) (c : cmd) : state :=
                    else set_data_node st s (fst it) addidx BEnd) items st
   | CInsertOrdered ppats items =>
       fold_left (fun st p => fold_left (fun st b => prim_insert_ordered st s p b None) items st)
-                (expand_all (st_tree st) [NS s] ppats) st
+                (expand_multi (st_tree st) [NS s] ppats) st
   | CReorder fields =>
       fold_left (fun st (f : pattern * bspec) =>
                    fold_left (fun st q => prim_reorder cfg st s (parent_of q) (last_name q) (snd f))
                              (expand (st_tree st) [NS s] (fst f)) st) fields st
-  | CRemove pat =>
-      fold_left prim_remove_node (rev (expand (st_tree st) [NS s] pat)) st
+  | CRemove pats =>
+      fold_left prim_remove_node (rev (expand_multi (st_tree st) [NS s] pats)) st
   | CSubscribe pat => subscribe st s pat
   | CUnsubscribe pat => unsubscribe st s pat
   | CUnsubscribeAll => unsubscribe_by st s (fun _ => false)
